@@ -1,7 +1,6 @@
 import HH.Portable
 import HH.Spec
 import HH.Proofs.Buffer
-import Std.Tactic.BVDecide
 import Mathlib.Tactic.IntervalCases
 /-!
 # The portable model computes the HighwayHash specification (helper lemmas for C01)
